@@ -42,10 +42,19 @@ func NewCol(proto string, mode collector.DecodingMode, clk collector.VerifClock,
 // case). Checks run their cases one after the other.
 var NumExtraElements int
 
+// MaxBufferSize is the MaxBufferSize setting of the collecting processes built by NewCol / NewColEnc
+// (0: 65535). It sizes the datagram buffer of udp collectors; a stream collector has no use for it,
+// and what it decodes must not depend on it.
+var MaxBufferSize uint16
+
 // NewColEnc is NewCol with the IsEncrypted flag of the configuration set as given (no socket is
 // opened, so no certificate is needed).
 func NewColEnc(proto string, mode collector.DecodingMode, clk collector.VerifClock, ttl uint32, encrypted bool) *Col {
-	in := collector.CollectorInput{Address: "127.0.0.1:0", Protocol: proto, MaxBufferSize: 65535, TemplateTTL: ttl, DecodingMode: mode, IsEncrypted: encrypted, NumExtraElements: NumExtraElements}
+	mbs := uint16(65535)
+	if MaxBufferSize != 0 {
+		mbs = MaxBufferSize
+	}
+	in := collector.CollectorInput{Address: "127.0.0.1:0", Protocol: proto, MaxBufferSize: mbs, TemplateTTL: ttl, DecodingMode: mode, IsEncrypted: encrypted, NumExtraElements: NumExtraElements}
 	var cp *collector.CollectingProcess
 	var err error
 	if clk != nil {
